@@ -166,6 +166,7 @@ def run(rep: vk.Report):
     n = 260 if rep.tier == "quick" else 8000
     cases = Cases("api-ops", IMPORTS, CASE_TYPE, CHECKER, defs=DEFS)
     np_checks = np_bad = 0
+    alias_checks = 0
     unsup_results = unsup_operands = 0
     ops_hist = {}
     nums, nmeta = [], []
@@ -413,6 +414,23 @@ def run(rep: vk.Report):
                     rep.violation({"kind": "numpy", "obligation": "built object evaluates to the NumPy operation on the values",
                                    "witness": {"op": op, "got": None if got is None else np.asarray(got).tolist(), "numpy": ref.tolist()}},
                                   concrete=True)
+            # call history: a result handed out for one assignment of values must not change when the same built object is evaluated
+            # again for another assignment (NumPy operations return fresh arrays)
+            if py[0] == "ok" and hasattr(py[1], "evaluate"):
+                try:
+                    with np.errstate(all="ignore"):
+                        first = py[1].evaluate(vals)
+                        if isinstance(first, np.ndarray):
+                            kept = np.array(first, copy=True)
+                            vals2 = {k_: (v_ + 0.5 if isinstance(v_, float) else v_) for k_, v_ in dict(vals).items()}
+                            second = py[1].evaluate(vals2)
+                            alias_checks += 1
+                            if not np.array_equal(np.asarray(first), kept, equal_nan=True):
+                                rep.violation({"kind": "history", "obligation": "a result handed out earlier does not change when the same object is evaluated again",
+                                               "witness": {"op": op, "model_call": model[:400], "first_result_then": kept.tolist(),
+                                                           "first_result_after_second_call": np.asarray(first).tolist()}}, concrete=True)
+                except (ZeroDivisionError, OverflowError, ValueError, TypeError, KeyError):
+                    pass
             if py[0] == "ok" and op in ("sum", "dot", "dot_matvec", "matmul", "norm", "quad", "trace", "m_sum", "frob", "rmatmul") \
                     and hasattr(py[1], "evaluate") and not hasattr(py[1], "_expressions"):
                 with np.errstate(all="ignore"):
@@ -512,6 +530,7 @@ def run(rep: vk.Report):
         rep.violation({"kind": "numeric", "obligation": "scalar result within the enclosure of the model tree", "case": nums[i][:3000],
                        "witness": nmeta[i]}, concrete=True)
     cov = rep.coverage
+    cov["results_kept_across_a_second_evaluation"] = alias_checks
     cov["evaluations"] = len(cases.terms) + len(nums) + np_checks
     cov["distinct_nontrivial"] = cases.nontrivial
     cov["rule"] = ("26 API operations applied to operands obtained from random recipes (views of vectors and matrices incl. transposes, "
